@@ -14,7 +14,7 @@
 (*             matches when nothing is left                                                  *)
 (*     flow    URLTree.Traversal: a trailing wildcard needs one more segment, except for the *)
 (*             host-only URL against "host/*"                                                *)
-(*     both trim a trailing "/" of the request URL first.                                    *)
+(*     both trim a trailing "/" of the request URL first and compare case-sensitively.       *)
 (*                                                                                          *)
 (* Deviations of the code named by constants:                                                *)
 (*   QuoteAll    TRUE: every character of a literal segment is quoted and every {..} path    *)
@@ -69,10 +69,16 @@ RECURSIVE JoinC(_, _)
 JoinC(segs, sepc) == IF Len(segs) = 0 THEN <<>>
                      ELSE IF Len(segs) = 1 THEN segs[1]
                      ELSE segs[1] \o <<sepc>> \o JoinC(Tail(segs), sepc)
-Subject(method, uc, ts) ==
-    method \o <<":", ":", ":">> \o JoinC(uc.h, ".")
+UpperOf == [c \in {"a", "p", "i", "c", "o", "m", "x"} |->
+             IF c = "a" THEN "A" ELSE IF c = "p" THEN "P" ELSE IF c = "i" THEN "I" ELSE IF c = "c" THEN "C"
+             ELSE IF c = "o" THEN "O" ELSE IF c = "m" THEN "M" ELSE "X"]
+Up(seg) == [i \in 1..Len(seg) |-> IF seg[i] \in DOMAIN UpperOf THEN UpperOf[seg[i]] ELSE seg[i]]
+\* var: "" canonical, "ts" extra "/" at the end, "uc" host labels in upper case
+Subject(method, uc, var) ==
+    method \o <<":", ":", ":">>
+    \o JoinC(IF var = "uc" THEN [i \in 1..Len(uc.h) |-> Up(uc.h[i])] ELSE uc.h, ".")
     \o (IF Len(uc.p) > 0 THEN <<"/">> \o JoinC(uc.p, "/") ELSE <<>>)
-    \o (IF ts THEN <<"/">> ELSE <<>>)
+    \o (IF var = "ts" THEN <<"/">> ELSE <<>>)
 
 \* regular-expression search of the token expression e in the character sequence s
 Found(e, s) ==
@@ -108,13 +114,15 @@ NineMethods == FiveMethods \cup {<<"H", "E", "A", "D">>, <<"O", "P", "T", "I", "
 Registered(it) == IF it.ms # {} THEN it.ms
                   ELSE IF AllMethods THEN NineMethods ELSE FiveMethods
 
-ProxyModel(it, mc, uc, ts) == \E rm \in Registered(it) : Found(Expr(rm, it.pc), Subject(mc, uc, ts))
+ProxyModel(it, mc, uc, var) == \E rm \in Registered(it) : Found(Expr(rm, it.pc), Subject(mc, uc, var))
 
-EngineModel(it, mc, uc) ==
+\* the engine compares host labels and segments case-sensitively and trims a trailing "/"
+EngineModel(it, mc, uc, var) ==
     LET p == AsStrings(it.pc)
         u == AsStrings(uc)
-    IN /\ (IF it.kind = "policy" THEN mc \in it.ms ELSE (it.ms = {} \/ mc \in it.ms))
-       /\ IF it.kind = "policy" THEN Matches(p, u)
-          ELSE \/ MatchesStrict(p, u)
-               \/ Matches(p, u) /\ Path(p) = <<"*">> /\ Path(u) = <<>>
+    IN /\ var # "uc"
+       /\ (IF it.kind = "policy" THEN mc \in it.ms ELSE (it.ms = {} \/ mc \in it.ms))
+       /\ IF it.kind = "policy" THEN MatchesX(p, u)
+          ELSE \/ MatchesStrictX(p, u)
+               \/ MatchesX(p, u) /\ Path(p) = <<"*">> /\ Path(u) = <<>>
 ================================================================================
